@@ -3,6 +3,7 @@ use crate::engine::*;
 use crate::gen;
 use crate::keys;
 use crate::proto::*;
+use rusty_paseto::prelude::ValidatorFn;
 use proptest::collection::vec;
 use proptest::prelude::*;
 use serde::{Deserialize, Serialize};
@@ -201,11 +202,29 @@ impl Sub for ExpectedClaims {
     }
     let mut parser = new_parser(p, c.layer);
     for (i, e) in specs.iter().enumerate() {
-      if c.via_extend && i % 3 == 2 && parser.extend_checks(&[(e.key().to_string(), e.expected())]) {
-        expect.insert(e.key().to_string(), e.expected());
+      let shaped = if let ClaimSpec::Shaped(_, v) = e { Some(v.clone()) } else { None };
+      if let (Some(v), true) = (&shaped, c.via_extend) {
+        if parser.extend_checks_verbatim(&[(e.key().to_string(), v.clone())]) {
+          expect.insert(e.key().to_string(), e.demanded());
+          cl.tag("registered-via-extend_check_claims:claim-serialises-under-another-shape");
+          continue;
+        }
+      }
+      if shaped.is_some() {
+        cl.tag("expected-claim-serialises-under-another-shape");
+      }
+      if c.via_extend && i % 3 == 2 && shaped.is_none() && parser.extend_checks(&[(e.key().to_string(), e.expected())]) {
+        expect.insert(e.key().to_string(), e.demanded());
         cl.tag("registered-via-extend_check_claims");
       } else if parser.check(e).is_ok() {
-        expect.insert(e.key().to_string(), e.expected());
+        expect.insert(e.key().to_string(), e.demanded());
+      }
+    }
+    if c.via_extend {
+      // validators for names that are no expected claims of this parser and no members of any payload: never consulted
+      let orphans: Vec<(String, &'static ValidatorFn)> = (0..(c.seed[0] % 9) as usize).map(|i| (format!("orphan-validator-{i}"), VALIDATOR_ACCEPTS)).collect();
+      if !orphans.is_empty() && parser.extend_validators(&orphans) {
+        cl.tag("validators-for-names-nobody-expects");
       }
     }
     let late: Vec<(usize, &ClaimSpec)> = c
@@ -221,11 +240,11 @@ impl Sub for ExpectedClaims {
     for (i, (t, pl)) in tokens.iter().enumerate() {
       for (j, (at, e)) in late.iter().enumerate() {
         if *at == i && i > 0 {
-          if c.via_extend && j % 2 == 0 && parser.extend_checks(&[(e.key().to_string(), e.expected())]) {
-            expect.insert(e.key().to_string(), e.expected());
+          if c.via_extend && j % 2 == 0 && !matches!(e, ClaimSpec::Shaped(..)) && parser.extend_checks(&[(e.key().to_string(), e.expected())]) {
+            expect.insert(e.key().to_string(), e.demanded());
             cl.tag("expectation-registered-between-parses(extend_check_claims)");
           } else if parser.check(e).is_ok() {
-            expect.insert(e.key().to_string(), e.expected());
+            expect.insert(e.key().to_string(), e.demanded());
             cl.tag("expectation-registered-between-parses");
           }
         }
@@ -367,7 +386,7 @@ fn typed(key: &str, v: &Value, form: u8) -> ClaimSpec {
 
 fn case(proto: Proto, layer: Layer) -> BoxedStrategy<ExpectCase> {
   // base claim set S, expectations derived from it, then per-token perturbations of S
-  (gen::bytes32(), vec((key(), value()), 0..5), vec((any::<u16>(), 0u8..12, value(), any::<u8>()), 0..4), vec((0u8..6, any::<u16>(), value()), 1..=6), any::<bool>(), vec((1u8..6, any::<u16>(), 0u8..12, value(), any::<u8>()), 0..3), any::<bool>(), prop_oneof![3 => Just(0u8), 2 => 1u8..5])
+  (gen::bytes32(), vec((key(), value()), 0..5), vec((any::<u16>(), 0u8..16, value(), any::<u8>()), 0..4), vec((0u8..6, any::<u16>(), value()), 1..=6), any::<bool>(), vec((1u8..6, any::<u16>(), 0u8..16, value(), any::<u8>()), 0..3), any::<bool>(), prop_oneof![3 => Just(0u8), 2 => 1u8..5])
     .prop_map(move |(seed, base, exp_rel, perturb, via_builder, late_rel, via_extend, respell)| {
       let base_obj: serde_json::Map<String, Value> = base.iter().cloned().collect();
       let base_keys: Vec<String> = base_obj.keys().cloned().collect();
@@ -408,6 +427,12 @@ fn case(proto: Proto, layer: Layer) -> BoxedStrategy<ExpectCase> {
             },
             other => typed(&k, &json!(other.to_string()), *form),
           },
+          // a caller-defined claim type whose serialised form is not the plain {key: value}: siblings next to its own
+          // member (the own member is what counts); its value under ANOTHER member name, or no member at all (such an
+          // expectation cannot be met: the token is refused)
+          12 => ClaimSpec::Shaped(k.clone(), json!({ k.clone(): cur, "sibling": v })),
+          13 => ClaimSpec::Shaped(k.clone(), json!({ KEYS[pick(*ki ^ 0x5555, KEYS.len())]: cur, format!("{k}-alias"): cur })),
+          14 => ClaimSpec::Shaped(k.clone(), if *form % 2 == 0 { json!({}) } else { cur.clone() }),
           _ => match &cur {
             Value::String(s) => typed(&k, &json!(s.to_uppercase()), *form),     // case change
             Value::Number(n) if n.is_i64() => typed(&k, &json!(n.as_i64().unwrap() as f64), *form), // number form
